@@ -3,6 +3,7 @@ import SpecVerif.Proofs.Lemmas.LevinsonPD
 import SpecVerif.Proofs.Lemmas.Toeplitz
 import SpecVerif.Proofs.Lemmas.SchurCohn
 import Mathlib.Algebra.Star.Rat
+import SpecVerif.Proofs.Lemmas.CRatField
 /-
   C10 — the Levinson recursion solves the Hermitian Toeplitz normal equations.
 
@@ -275,33 +276,38 @@ example : ∀ j, j ≤ 1 → (toepRun (2 : ℚ) [1] [3] [1, 2] j).P ≠ 0 := by
     norm_num
 
 omit [StarRing K] in
-/-- the wrapper returns `ok x` iff the sizes are admissible, no stage `1..M` has `re P ≤ 0`, and `x`
+/-- the wrapper returns `ok x` iff the sizes are admissible, neither `T0` nor a stage variable `P_1..P_M` tests zero
+(a general Toeplitz system need not be positive definite: the code only rejects an exactly singular stage), and `x`
 is the vector after `M = len(TC)` stages. -/
-theorem toeplitz_ok [ReOrd K] (T0 : K) (TC TR Z x : List K) :
+theorem toeplitz_ok [IsZero K] (T0 : K) (TC TR Z x : List K) :
     toeplitz T0 TC TR Z = .ok x ↔
-      TC.length ≠ 0 ∧ TR.length = TC.length ∧
-        (∀ j, 1 ≤ j → j ≤ TC.length → reLe0 (toepRun T0 TC TR Z j).P = false) ∧
+      TC.length ≠ 0 ∧ TR.length = TC.length ∧ isZero T0 = false ∧
+        (∀ j, 1 ≤ j → j ≤ TC.length → isZero (toepRun T0 TC TR Z j).P = false) ∧
         x = (toepRun T0 TC TR Z TC.length).X := by
   unfold toeplitz
-  rw [← any_range_succ_false_iff (fun j => reLe0 (toepRun T0 TC TR Z j).P) TC.length]
+  rw [← any_range_succ_false_iff (fun j => isZero (toepRun T0 TC TR Z j).P) TC.length]
   by_cases hM : TC.length = 0
   · simp [hM]
   · by_cases hR : TR.length = TC.length
-    · by_cases h : (List.range TC.length).any
-          (fun j => reLe0 (toepRun T0 TC TR Z (j + 1)).P) = true
-      · simp [hM, hR, h]
-      · have h' : (List.range TC.length).any
-            (fun j => reLe0 (toepRun T0 TC TR Z (j + 1)).P) = false := by simpa using h
-        simp only [hM, hR, h', decide_false, Bool.or_self, if_false,
-          ne_eq, not_true_eq_false, Bool.false_eq_true, Except.ok.injEq, not_false_eq_true,
-          true_and]
-        exact eq_comm
+    · by_cases h0 : isZero T0 = true
+      · simp [hM, hR, h0]
+      · have h0' : isZero T0 = false := by simpa using h0
+        by_cases h : (List.range TC.length).any
+            (fun j => isZero (toepRun T0 TC TR Z (j + 1)).P) = true
+        · simp [hM, hR, h0', h]
+        · have h' : (List.range TC.length).any
+              (fun j => isZero (toepRun T0 TC TR Z (j + 1)).P) = false := by simpa using h
+          simp only [hM, hR, h0', h', decide_false, Bool.or_self, if_false,
+            ne_eq, not_true_eq_false, Bool.false_eq_true, Except.ok.injEq, not_false_eq_true,
+            true_and]
+          exact eq_comm
     · simp [hM, hR]
 
-/-- **end to end**: whenever `TOEPLITZ` returns `x` (non-zero `T0`, right-hand side of length `M+1`,
-a guard `reLe0` that rejects `0`), `x` has `M+1` entries and `G x = Z`. -/
-theorem toeplitz_correct [ReOrd K] (hre : ∀ x : K, reLe0 x = false → x ≠ 0)
-    (T0 : K) (TC TR Z x : List K) (hT0 : T0 ≠ 0) (hZ : Z.length = TC.length + 1)
+/-- **end to end**: whenever `TOEPLITZ` returns `x` (right-hand side of length `M+1`, a zero test `isZero` that
+accepts `0`), `x` has `M+1` entries and `G x = Z` - for ANY Toeplitz matrix whose stage variables do not vanish,
+positive definite or not. -/
+theorem toeplitz_correct [IsZero K] (hz : ∀ x : K, isZero x = false → x ≠ 0)
+    (T0 : K) (TC TR Z x : List K) (hZ : Z.length = TC.length + 1)
     (hx : toeplitz T0 TC TR Z = .ok x)
     (c : ℕ → K) (hc0 : c 0 = T0) (hc : ∀ j, c (j + 1) = nth TC j)
     (ρ : ℕ → K) (hρ0 : ρ 0 = T0) (hρ : ∀ j, ρ (j + 1) = nth TR j) :
@@ -309,13 +315,13 @@ theorem toeplitz_correct [ReOrd K] (hre : ∀ x : K, reLe0 x = false → x ≠ 0
     ∀ i, i ≤ TC.length →
       ∑ j ∈ range (TC.length + 1), (if j ≤ i then c (i - j) else ρ (j - i)) * nth x j
         = nth Z i := by
-  obtain ⟨_, hRl, hg, rfl⟩ := (toeplitz_ok T0 TC TR Z x).mp hx
+  obtain ⟨_, hRl, hT0, hg, rfl⟩ := (toeplitz_ok T0 TC TR Z x).mp hx
   apply toeplitz_solves T0 TC TR Z TC.length (Nat.le_refl _) (by omega) (by omega) _
     c hc0 hc ρ hρ0 hρ
   intro j hj
   rcases Nat.eq_zero_or_pos j with rfl | hpos
-  · exact hT0
-  · exact hre _ (hg j hpos hj)
+  · exact hz _ hT0
+  · exact hz _ (hg j hpos hj)
 
 /-! ### positive definite autocorrelations (`ℝ` or `ℂ`) -/
 
@@ -464,5 +470,41 @@ example : ∀ m, m ≤ 2 → 0 < RCLike.re (levRun (2 : ℝ) [1, 1 / 5] m).P := 
     norm_num
 
 end Stability
+
+/-! ### instantiation at the executed scalar type `CRat`
+
+`Lemmas/CRatField.lean` makes the Gaussian rationals of the executable model a `Field` / `StarRing` whose
+operations ARE the model's hand-written instances.  The theorems below are the generic theorems of this
+file specialised to `K := CRat` (by plain application — no rewriting): their statements elaborate to the
+model functions applied to the model's own instances (`CRat.instAdd`, `CRat.instMul`, `CRat.instDiv`, …,
+`CRat.instConj`), i.e. to the code that the differential test executes; `conj` is the model's conjugation.
+The `example … := rfl` lines check that the `Field`-path elaboration used by the generic theorems,
+instantiated at `CRat`, is that very function. -/
+section CRatInstantiation
+
+/-- **`levinson_solves` for the executed model**: the order-`p` output of the recursion run on
+Gaussian rationals satisfies the normal equations -/
+theorem levinson_solves_CRat (r0 : CRat) (T : List CRat) (p : ℕ) (h0 : conj r0 = r0)
+    (hp : p ≤ T.length) (hP : ∀ j, j < p → (levRun r0 T j).P ≠ 0)
+    (r : ℕ → CRat) (hr0 : r 0 = r0) (hr : ∀ j, r (j + 1) = nth T j)
+    (α : ℕ → CRat) (hα0 : α 0 = 1) (hα : ∀ j, α (j + 1) = nth (levRun r0 T p).A j) :
+    ∀ i, i ≤ p →
+      ∑ j ∈ range (p + 1), (if j ≤ i then r (i - j) else conj (r (j - i))) * α j
+        = if i = 0 then (levRun r0 T p).P else 0 :=
+  levinson_solves r0 T p h0 hp hP r hr0 hr α hα0 hα
+
+/-- **`levinson_error_product` for the executed model** -/
+theorem levinson_error_product_CRat (r0 : CRat) (T : List CRat) (p : ℕ) :
+    (levRun r0 T p).P
+      = r0 * ∏ i ∈ range p, (1 - nth (levRun r0 T p).ref i * conj (nth (levRun r0 T p).ref i)) :=
+  levinson_error_product r0 T p
+
+example : (fun (K : Type) [Field K] [StarRing K] => (levRun : K → _)) CRat
+    = @levRun CRat CRat.instAdd CRat.instSub CRat.instMul CRat.instDiv CRat.instNeg
+        CRat.instOfNatOfNatNat CRat.instOfNatOfNatNat_1 CRat.instConj := rfl
+example : @levRun CRat CRat.instAdd CRat.instSub CRat.instMul CRat.instDiv CRat.instNeg
+    CRat.instOfNatOfNatNat CRat.instOfNatOfNatNat_1 CRat.instConj = levRun := rfl
+
+end CRatInstantiation
 
 end SpecVerif.C10
